@@ -11,6 +11,7 @@ import (
 
 	"google.golang.org/grpc"
 	"google.golang.org/grpc/metadata"
+	"google.golang.org/grpc/stats"
 	"google.golang.org/protobuf/proto"
 	"google.golang.org/protobuf/types/known/wrapperspb"
 	"pgregory.net/rapid"
@@ -209,3 +210,15 @@ func unwrapBytes(data []byte) []byte {
 	}
 	return m.GetValue()
 }
+
+func getenv(k, def string) string {
+	if v := os.Getenv(k); v != "" {
+		return v
+	}
+	return def
+}
+
+type statsRPCTagInfo = stats.RPCTagInfo
+type statsRPCStats = stats.RPCStats
+type statsConnTagInfo = stats.ConnTagInfo
+type statsConnStats = stats.ConnStats
